@@ -156,6 +156,12 @@ DsSelect(nd, o2) ==
 
 ApplyCb(nd, v) == IF nd.cb = "" THEN Ok(v) ELSE Call(nd.cb, <<v>>)
 
+\* the effect named "ep" has a parameter read from option EP at evaluation time (like a helper step
+\* with an option-valued argument); every other effect is a constant callable
+EffParam == <<"EP">>
+EffMissing(nd, o2) == \E i \in 1 .. Len(nd.effs) : nd.effs[i] = "ep" /\ ~Has(EffParam, o2)
+EffKeys(nd, o2) == IF \E i \in 1 .. Len(nd.effs) : nd.effs[i] = "ep" THEN {EffParam} ELSE {}
+
 EffectsOn(nd, o2) ==   \* effects run unless disabled by option or per dataset
     LET sw == Get(<<"LABREA", "EFFECTS", "DISABLED">>, o2) IN
     ~nd.effoff /\ ~(~IsAbsent(sw) /\ Truthy(sw))
@@ -251,6 +257,7 @@ Eval(n, o) ==
                  IF ~r.ok THEN r
                  ELSE LET c == ApplyCb(nd, r.v) IN
                       IF ~c.ok \/ ~EffectsOn(nd, o2) THEN c
+                      ELSE IF EffMissing(nd, o2) THEN KeyNotFound({EffParam})
                       ELSE LET RECURSIVE Eff(_)
                                Eff(i) == IF i > Len(nd.effs) THEN c
                                          ELSE IF <<nd.effs[i], <<c.v>>>> \in Raises THEN UserErr(nd.effs[i])
@@ -330,7 +337,10 @@ Validate(n, o) ==
       [] nd.k = "ds" ->
             LET o2 == DsOptions(nd, o)
                 sel == DsSelect(nd, o2) IN
-            IF ~sel.ok THEN sel ELSE Validate(sel.n, o2)
+            IF ~sel.ok THEN sel
+            ELSE LET v == Validate(sel.n, o2) IN
+                 IF ~v.ok \/ ~EffectsOn(nd, o2) THEN v
+                 ELSE IF EffMissing(nd, o2) THEN KeyNotFound({EffParam}) ELSE v
       [] nd.k = "fnapp" -> ValidateSeq(nd.args, o)
 
 -----------------------------------------------------------------------------
@@ -423,7 +433,9 @@ KeysOf(n, o) ==
             ELSE LET inner == IF sel.dep THEN UnionK(<<KeysOf(sel.n, o2), KeysOf(nd.disp, o2)>>)
                               ELSE KeysOf(sel.n, o2) IN
                  IF ~inner.ok THEN inner
-                 ELSE OkK(WithFilter(WithFilter(inner.ks, DsWithQ(nd), o1), DsWithD(nd), o))
+                 ELSE IF EffectsOn(nd, o2) /\ EffMissing(nd, o2) THEN KeyNotFound({EffParam})
+                 ELSE LET ek == IF EffectsOn(nd, o2) THEN EffKeys(nd, o2) ELSE {} IN
+                      OkK(WithFilter(WithFilter(inner.ks \cup ek, DsWithQ(nd), o1), DsWithD(nd), o))
       [] nd.k = "fnapp" -> KeysSeq(nd.args, o)
 
 -----------------------------------------------------------------------------
@@ -509,7 +521,8 @@ Explain(n, o) ==
             ELSE LET inner == IF sel.dep THEN UnionK(<<Explain(sel.n, o2), Explain(nd.disp, o2)>>)
                               ELSE Explain(sel.n, o2) IN
                  IF ~inner.ok THEN inner
-                 ELSE OkK(WithFilterX(WithFilterX(inner.ks, DsWithQ(nd), o1), DsWithD(nd), o))
+                 ELSE LET ek == IF EffectsOn(nd, o2) THEN EffKeys(nd, o2) ELSE {} IN
+                      OkK(WithFilterX(WithFilterX(inner.ks \cup ek, DsWithQ(nd), o1), DsWithD(nd), o))
       [] nd.k = "fnapp" -> ExplainSeq(nd.args, o)
 
 -----------------------------------------------------------------------------
@@ -639,7 +652,7 @@ Mentions(n) ==
       [] nd.k = "map" -> Mentions(nd.inner) \cup UNION {Mentions(nd.its[i].n) \cup {nd.its[i].p} : i \in 1 .. Len(nd.its)}
       [] nd.k = "with" -> Mentions(nd.inner) \cup Present(nd.q)
       [] nd.k = "cached" -> Mentions(nd.inner)
-      [] nd.k = "ds" -> Opt(nd.dflt) \cup Opt(nd.disp) \cup Present(nd.q) \cup Present(nd.dd) \cup
+      [] nd.k = "ds" -> Opt(nd.dflt) \cup Opt(nd.disp) \cup Present(nd.q) \cup Present(nd.dd) \cup EffKeys(nd, EmptyD) \cup
                         UNION {Mentions(DsTable(nd)[i].n) : i \in 1 .. Len(DsTable(nd))}
       [] nd.k = "fnapp" -> Kids(nd.args)
 
